@@ -467,6 +467,20 @@ class Host(HostBase):
             return Term("getitem", (v, idx), self.ctx.new_id())
         if isinstance(v, Stream) and all(e.kind == "yield" for e in v.events):
             return self.subscript(PyList([e.value for e in v.events]), idx, node)
+        if isinstance(v, Stream) and v.kind == "list" and len(v.events) == 1 and v.events[0].kind == "foreach" and all(e.kind in ("yield", "carried") for e in v.events[0].body):
+            # a list built by a comprehension over unbounded data: every element is an instance of the generic one
+            ys = [e for e in v.events[0].body if e.kind == "yield"]
+            if isinstance(idx, SliceV):
+                return Stream(list(v.events), None, "list", self.ctx.new_id())
+            if self.as_lin(idx) is None and not isinstance(idx, (Opaque, Term)):
+                raise self.raise_("TypeError", "list indices must be integers or slices", node)
+            if len(ys) != 1:
+                if not ys:
+                    raise self.raise_("IndexError", "list index out of range", node)
+                raise self.unsupported(node, f"subscript of {v!r}")
+            if self.ctx.choose(("stream-item", v.id, self.key_desc(idx)), ["item", "IndexError"]) != "item":
+                raise self.raise_("IndexError", "list index out of range", node)
+            return ys[0].value
         if isinstance(v, (IntV, EnumV)) or (isinstance(v, Const)):
             raise self.raise_("TypeError", "object is not subscriptable", node)
         if isinstance(v, ExternalV):
